@@ -26,7 +26,7 @@ CONSTANTS FIX_D01,    \* promotion for ~ << >> and unary +
           FIX_D02,    \* _Bool x++ / x-- yield the old value
           FIX_D04,    \* getTypeId(TY_ENUM) = I32
           FIX_D10,    \* eval2: ND_CAST arm typed by signedness, _Bool cast, results re-wrapped, ND_MOD constant
-          MUT         \* "none" | "setl" | "movz" | "cdq" | "castrow"
+          MUT         \* "none" | "setl" | "movz" | "cdq" | "castrow" | "ptrsx" (pointer offset always sign-extended)
 
 WI == WInt
 WL == WLong
@@ -173,7 +173,7 @@ IIncDec(kind, tl, ml) ==
    p < q  ->  usual_arith_conv leaves pointer types; 64-bit cmp; setb/setbe (pointer_to: is_unsigned) *)
 IPtrArith(op, rp, a, ra, s) ==
   LET ct  == Common(a, "long")
-      off == BinReg("mul", ct, ICast(a, ct, ra), U(s, WL))
+      off == BinReg("mul", ct, IF MUT = "ptrsx" THEN i32i64(ra) ELSE ICast(a, ct, ra), U(s, WL))
   IN IF op = "psub" THEN U(rp - off, WL) ELSE U(rp + off, WL)
 IPtrRel(op, rp, rq, s) ==
   CASE op = "pdiff" -> IR("long", BinReg("div", "long", U(rp - rq, WL), U(s, WL)))
